@@ -321,6 +321,12 @@ def run_unit(u, scratch, want_trace=True):
     rc, out, err, dt, to = run(["goto-instrument", "--drop-unused-functions", gbi, gbf], 600, log)
     if rc == 0 and not to and os.path.exists(gbf):
         gbi = gbf
+    # initialisers of static objects that the unit never reads (vorbisenc.c alone
+    # carries megabytes of static tables) are sliced away: pure formula-size reduction
+    gbs = os.path.join(d, "u.s.gb")
+    rc, out, err, dt, to = run(["goto-instrument", "--slice-global-inits", gbi, gbs], 600, log)
+    if rc == 0 and not to and os.path.exists(gbs):
+        gbi = gbs
     flags = [] if u.nochecks else list(BASE_CHECKS)
     if u.no_overflow:
         flags = [f for f in flags if f not in ("--signed-overflow-check", "--pointer-overflow-check")]
@@ -412,7 +418,7 @@ def run_unit(u, scratch, want_trace=True):
     if r["reason"].startswith("vacuity guard"):
         pass
     elif unknown and not failed:
-        r["reason"] = "%d obligation(s) undecided (timeout): %s" % (len(unknown), " ".join(fo["obligation"] for fo in unknown[:400]))
+        r["reason"] = "%d obligation(s) undecided (timeout): %s" % (len(unknown), " ".join(fo["obligation"] for fo in unknown[:8]) + (" ..." if len(unknown) > 8 else ""))
     elif nob == 0:
         r["reason"] = "vacuity guard: zero obligations"
     elif reach_hit < u.reach:
